@@ -103,7 +103,13 @@ func genABIValue(c *Ctx, t abi.Type) (interface{}, error) {
 		case reflect.Int64:
 			return int64(cdSmall(c, 63)), nil
 		case reflect.Ptr:
-			switch c.R.Intn(4) {
+			switch c.R.Intn(5) {
+			case 4: // 0, 1, 2, the neighbours of 2^k (k = 7 ... 256) and of the amount bounds of vm/constants
+				b := arBoundaryInts[c.R.Intn(len(arBoundaryInts))]
+				if _, ok := arIntArg(t, b); !ok {
+					b = big.NewInt(1)
+				}
+				return new(big.Int).Set(b), nil
 			case 0:
 				return big.NewInt(0), nil
 			case 1:
